@@ -6,6 +6,7 @@ import (
 	"net"
 	"net/http"
 	"sync"
+	"sync/atomic"
 	"time"
 
 	"verifharness/srv"
@@ -46,6 +47,7 @@ type Endpoint struct {
 	release  chan struct{}
 	keep     bool // keep attempts
 	discard  map[string]bool
+	refusing atomic.Bool
 }
 
 // NewEndpoint starts the endpoint on a free port.
@@ -71,8 +73,28 @@ func (e *Endpoint) listen() error {
 	e.mu.Lock()
 	e.ln, e.hs = ln, hs
 	e.mu.Unlock()
-	go hs.Serve(ln)
+	go hs.Serve(&gateListener{Listener: ln, e: e})
 	return nil
+}
+
+// gateListener drops connections accepted while the endpoint is refusing.
+type gateListener struct {
+	net.Listener
+	e *Endpoint
+}
+
+func (g *gateListener) Accept() (net.Conn, error) {
+	for {
+		c, err := g.Listener.Accept()
+		if err != nil {
+			return nil, err
+		}
+		if g.e.refusing.Load() {
+			c.Close()
+			continue
+		}
+		return c, nil
+	}
 }
 
 // URL of a path ("/x").
@@ -150,8 +172,24 @@ func (e *Endpoint) Release() {
 	e.mu.Unlock()
 }
 
-// Refuse closes the listener and all connections: connects are refused.
-func (e *Endpoint) Refuse() {
+// Refuse starts an outage: connections accepted from now on are closed at
+// once and requests arriving on kept-alive connections are dropped without an
+// answer (the sender sees EOF / reset = a failed send, nothing is recorded).
+// A request whose handler already started is NOT interrupted: it is recorded
+// and gets its answer, so "recorded as delivered" always implies "the sender
+// received 2xx" (otherwise a legitimate retry would show up as a duplicate).
+func (e *Endpoint) Refuse() { e.refusing.Store(true) }
+
+// Reopen ends the outage.
+func (e *Endpoint) Reopen() error {
+	e.refusing.Store(false)
+	return nil
+}
+
+// Close stops the endpoint.
+func (e *Endpoint) Close() {
+	e.Release()
+	e.refusing.Store(true)
 	e.mu.Lock()
 	hs := e.hs
 	e.hs, e.ln = nil, nil
@@ -161,31 +199,18 @@ func (e *Endpoint) Refuse() {
 	}
 }
 
-// Reopen listens again on the same port.
-func (e *Endpoint) Reopen() error {
-	e.mu.Lock()
-	open := e.hs != nil
-	e.mu.Unlock()
-	if open {
-		return nil
-	}
-	var err error
-	for i := 0; i < 50; i++ {
-		if err = e.listen(); err == nil {
-			return nil
-		}
-		time.Sleep(20 * time.Millisecond)
-	}
-	return err
-}
-
-// Close stops the endpoint.
-func (e *Endpoint) Close() {
-	e.Release()
-	e.Refuse()
-}
-
 func (e *Endpoint) handle(w http.ResponseWriter, r *http.Request) {
+	if e.refusing.Load() {
+		// outage: drop the connection without an answer, record nothing
+		if hj, ok := w.(http.Hijacker); ok {
+			if c, _, err := hj.Hijack(); err == nil {
+				c.Close()
+				return
+			}
+		}
+		w.WriteHeader(503)
+		return
+	}
 	body, err := io.ReadAll(io.LimitReader(r.Body, 64<<20))
 	if err != nil {
 		w.WriteHeader(400)
